@@ -17,10 +17,27 @@ type VFloat struct {
 	T   *Term
 	Dur *Term // set when the value is time.Duration(Dur).Seconds(): enables the exact integer encoding of int64(x)
 }
-type VBig struct {            // cosmossdk.io/math.Int (also Uint)
+type VBig struct { // cosmossdk.io/math.Int (also Uint)
 	Nil bool
 	T   *Term
+	// Cell: the *big.Int behind a math.Int that was filled by Unmarshal. math.Int is a struct
+	// holding a pointer, so copies of the struct share the big.Int, and gogoproto's Unmarshal
+	// writes INTO an already allocated big.Int instead of replacing it: decoding a second message
+	// into the same variable changes every earlier copy. Values with a cell are read through it.
+	Cell *bigCell
 }
+type bigCell struct{ T *Term }
+
+// cur: the value as it is now (through the shared cell, if any).
+func (b VBig) cur() VBig {
+	if b.Cell != nil && !b.Nil {
+		return VBig{T: b.Cell.T, Cell: b.Cell}
+	}
+	return b
+}
+
+// bigT: current numeric term of a math.Int value.
+func bigT(v Value) *Term { return v.(VBig).cur().T }
 type VDec struct { // cosmossdk.io/math.LegacyDec: raw = value * 10^18
 	Nil bool
 	T   *Term
